@@ -82,7 +82,9 @@ pub fn generate(out: &mut Out, prop: &str, thorough: bool, seed: u64) {
         "C03" => {
             universal::gen_cli_histories(out, &mut rng, n);
             universal::gen_srv_histories(out, &mut rng, n);
+            universal::gen_stream_histories(out, &mut rng, n);
         }
+        "C04" | "C05" | "C11" => universal::gen_stream_histories(out, &mut rng, 2 * n),
         _ => {}
     }
 }
